@@ -3,6 +3,7 @@ import PlasVerif.Proofs.Roman
 import PlasVerif.Proofs.EnumLists
 import PlasVerif.Proofs.Format
 import PlasVerif.Proofs.Untouched
+import PlasVerif.Proofs.TrimLeft
 /-!
 # C08 — Counters and automatic numbers follow LaTeX's numbering rules
 
@@ -325,6 +326,49 @@ example : ((run (initSt bookCounters bookThes 2) [.construct "chapter" "chapter"
       .construct "chapter" "chapter" false 0, .construct "section" "section" false 1]).toOption.map
         (·.outs.reverse.map (·.ref))) = some [some "1", some "A", some "B", some "C", some "C.1"] := by
   decide +kernel
+
+/-- `trimLeft` removes a *prefix* only: for every string, the code's loop equals "drop the leading `0.` groups"
+    (the independent definition `stripZeroGroups` of the spec).  A `0.` further to the right - `10.1`, `100.20` -
+    is never touched. -/
+theorem trimLeft_is_prefix_strip (t : String) : trimLeftStr t = stripZeroGroups t :=
+  PlasVerif.Proofs.TrimLeft.trimLeftStr_eq t
+
+/-- The arabic numeral of a positive number starts with a non-zero digit (so it never starts with `0.`). -/
+theorem decimal_has_no_leading_zero (n : Nat) (h : 1 ≤ n) : ∃ c r, c ≠ '0' ∧ (toString n).toList = c :: r :=
+  PlasVerif.Proofs.TrimLeft.repr_head n h
+
+/-- **Figure and table numbers of the standard classes, for every chapter number and every float number** (any
+    number of digits, zeros anywhere): with the class formats `\thechapter.\arabic{figure}` + `trimLeft` (decidable
+    `floatFormatsB`, true for the regenerated tables) the caption prints `<chapter>.<n>` whenever the chapter number is
+    positive - 10.1, 20.3, 100.20 included - and just `<n>` before the first chapter. -/
+theorem float_numbers_standard (thes : TheEnv) (s : Store) (ctr : Name) (k cn fn : Nat)
+    (hctr : ctr = "figure" ∨ ctr = "table") (hf : floatFormatsB thes = true)
+    (hcv : valD s "chapter" = (cn : Int)) (hfv : valD s ctr = (fn : Int)) :
+    evalThe (k + 2) thes s ("the" ++ ctr) =
+      .ok (if cn = 0 then toString fn else toString cn ++ "." ++ toString fn) := by
+  simp only [floatFormatsB, Bool.and_eq_true, beq_iff_eq] at hf
+  obtain ⟨⟨h1, h2⟩, h3⟩ := hf
+  refine PlasVerif.Proofs.TrimLeft.float_number thes s ctr k cn fn hctr ?_ h3 hcv hfv
+  rcases hctr with rfl | rfl
+  · exact h1
+  · exact h2
+
+/-- the regenerated book and article tables have these float formats (kernel-checked on the current source), and the
+    model's budget is at least 2 -/
+theorem class_tables_float_formats (d : Int) :
+    floatFormatsB (initSt bookCounters bookThes d).thes = true ∧
+    floatFormatsB (initSt articleCounters articleThes d).thes = true := by
+  have h1 : floatFormatsB (initSt bookCounters bookThes 0).thes = true := by decide +kernel
+  have h2 : floatFormatsB (initSt articleCounters articleThes 0).thes = true := by decide +kernel
+  exact ⟨h1, h2⟩
+
+/-- non-vacuity: chapter 10, second figure; chapter 100, table 20; no chapter yet -/
+example : (evalThe 23 (initSt bookCounters bookThes 2).thes [⟨"chapter", none, 10⟩, ⟨"figure", none, 2⟩] "thefigure").toOption
+    = some "10.2" := by decide +kernel
+example : (evalThe 23 (initSt bookCounters bookThes 2).thes [⟨"chapter", none, 100⟩, ⟨"table", none, 20⟩] "thetable").toOption
+    = some "100.20" := by decide +kernel
+example : (evalThe 23 (initSt articleCounters articleThes 2).thes [⟨"chapter", none, 0⟩, ⟨"figure", none, 10⟩] "thefigure").toOption
+    = some "10" := by decide +kernel
 
 /-! ## lists -/
 
